@@ -172,6 +172,11 @@ def judge_call(b, svc, method, cmd, obs):
             elif mm and mm.group(2) == "cookie" and isinstance(sent_v, str) and not COOKIE_OCTET.match(sent_v):
                 out.append(("response/cookie/value-outside-cookie-octets",
                             "%s: result attribute %s = %r carried in a response cookie is dropped or altered by net/http's cookie sanitiser" % (name, mm.group(1), sent_v)))
+            elif isinstance(want, dict) and any(rlocs.get(k) == "cookie" and isinstance(v, str) and not COOKIE_OCTET.match(v)
+                                                for k, v in (cmd["script"]["result"] or {}).items()):
+                bad = [k for k, v in (cmd["script"]["result"] or {}).items() if rlocs.get(k) == "cookie" and isinstance(v, str) and not COOKIE_OCTET.match(v)]
+                out.append(("response/cookie/value-outside-cookie-octets",
+                            "%s: result attribute %s carried in a response cookie is altered by net/http's cookie sanitiser and then fails the client's validation: %s" % (name, bad[0], msg[:120])))
             else:
                 out.append(("response/client-error", "%s: the client returned an error for a valid result: %s" % (name, msg[:200])))
         else:
@@ -261,6 +266,9 @@ def run_shared(c, prop):
                       "query/header/cookie/body and one response location header/body/cookie, required / optional / defaulted in rotation, "
                       "without and with validations), independent of the seed." % nm)
     builds = e2e.build_many(c.seed, range(nm), lambda i: ["-matrix-design"], work)
+    na = 10 if c.tier == "quick" else 40
+    c.cov["rule"] += " Then %d designs around primitive alias types with validations (attributes, array elements, map values, own Enum)." % na
+    builds += e2e.build_many(c.seed, range(na), lambda i: ["-alias-design"], work)
     builds += e2e.build_many(c.seed, range(n), lambda i: ["-errors"] if i % 3 == 1 else [], work)
     transport_ops = []
     for b in builds:
